@@ -11,8 +11,10 @@ from .. import widths
 
 EXPLANATION = ("Static structural analysis (rustc HIR + type-check facts) of the simplification driver: the arm table of "
                "expr::transform::update_expr_children is compared row by row with the variant universe of enum Expr and the child order "
-               "of for_each_child; every narrowing integer cast in expr::simplify must be guarded. Decides the structural clause, "
-               "not value-equivalence of the rewrite rules.")
+               "of for_each_child; every narrowing integer cast in expr::simplify must be guarded; a width (sort) inference over every syntactic path of the "
+               "rule dispatcher and the rule functions decides that each rule returns an expression of the width of the node it replaces and builds only "
+               "well-sorted nodes on the way (linear width terms, the IR's typing rules as path facts). Decides the structural and the type-preservation "
+               "clause, not value-equivalence of the rewrite rules.")
 ASSUMPTIONS = ["rustc's name resolution and type check are correct",
                "soundness of the individual rewrite rules is NOT decided (needs evaluation or a solver)"]
 
@@ -285,7 +287,7 @@ def r015(ctx):
 
 LEVEL_TEXT = ("Static table/dataflow analysis over the compiler's type-checked program: proves for all 35 Expr variants at once that the driver's "
               "rebuild step keeps operator, attributes and child positions, that no shift amount or width is silently truncated in the simplifier, and that the "
-              "dispatcher wires attributes to the right rule parameters. These are necessary conditions of meaning preservation that no test input reaches for every variant; "
+              "dispatcher wires attributes to the right rule parameters, and - by width inference over all ~140 syntactic paths of the 17 rule functions - that every rewrite result has the type of the node it replaces and is built from well-sorted operator applications. These are necessary conditions of meaning preservation that no test input reaches for every variant; "
               "value-soundness of each rewrite rule is explicitly not decided.")
 LEVEL_NOTE = "Trusts rustc name resolution/type check and the child order of for_each_child as the reference order; rewrite-rule soundness (value equality) is outside this technique."
-TECHNIQUE = "sibling-table agreement (match-arm table vs enum definition vs child order) + guarded-narrowing-cast dataflow rule on rustc HIR facts"
+TECHNIQUE = "sibling-table agreement (match-arm table vs enum definition vs child order) + guarded-narrowing-cast dataflow rule + path-sensitive width (sort) inference with linear width terms over the rewrite rules, on rustc HIR facts"
